@@ -433,6 +433,8 @@ class SymIter(Sym):
 
 
 class SaveCtx(JobCtx):
+    stat_faults = True      # the re-key must not take "stat failed" for "not initialised"
+
     def iter_of(self, interp, v):
         if isinstance(v, SJobSeq):
             return SymIter(v)
@@ -799,7 +801,7 @@ def setup_two_projects(interp, same=None):
 
 class JobMove(FSContract):
     target = f"{JOB}.Job.move"
-    properties = ("C03", "C04", "C11")
+    properties = ("C03", "C04", "C05", "C11")
     shard_bits = 3
     inline = GETTERS + (f"{JOB}.Job.statepoint", f"{JOB}._StatePointDict.__init__", f"{PRJ}.Project._register", f"{JOB}.Job.__str__")
     callees = {f"{PRJ}.Project.open_job": stub_open_job_by_sp, "signac._utility._mkdir_p": stub_mkdir_p, f"{JOB}._StatePointDict.load": stub_sp_load}
@@ -808,6 +810,10 @@ class JobMove(FSContract):
         ex, ctx = interp.ex, interp.ctx
         src, dst = setup_two_projects(interp)
         job = mk_job(interp, src, "me")
+        if ex.decide(None, "pre:document handle already open"):
+            # the handle has touched its document before: after the move it must not stay bound to the file in the old project
+            from .jobfs import SDoc
+            job.fields["_document"] = SDoc(LIn(src.p, job.me, Name.DOC), True)
         ex.assume(z3.And(src.fields["_sp_cache"].valid(), dst.fields["_sp_cache"].valid()))
         pre = {"job": job, "p": src.p, "q": dst.p, "me": job.me, "src": src, "dst": dst}
         ctx.ghost["pre"] = pre
@@ -1018,7 +1024,7 @@ class SPGetter(FSContract):
 
 class SPSetter(FSContract):
     target = f"{JOB}.Job.statepoint.setter"
-    properties = ("C03", "C04", "C08")
+    properties = ("C01", "C03", "C04", "C08")
     shard_bits = 2
     inline = GETTERS + (f"{JOB}.Job.statepoint", f"{JOB}._StatePointDict.__init__", f"{PRJ}.Project._register")
     callees = {f"{JOB}._StatePointDict.load": stub_sp_load, f"{JOB}._StatePointDict._save": stub_rekey}
@@ -1157,7 +1163,7 @@ class SSPProxy(Sym):
 
 class UpdateStatepoint(FSContract):
     target = f"{JOB}.Job.update_statepoint"
-    properties = ("C03", "C04", "C11")
+    properties = ("C03", "C04", "C08", "C11")
     inline = GETTERS + (f"{JOB}.Job.statepoint", f"{JOB}._StatePointDict.__init__", f"{PRJ}.Project._register")
     callees = {f"{JOB}._StatePointDict.load": stub_sp_load}
     faults = False
